@@ -3,7 +3,7 @@
 use std::ops::Range;
 
 use lightmotif::abc::{Alphabet, Dna, Protein};
-use lightmotif::num::{PositiveLength, U1, U16, U2, U32, U4};
+use lightmotif::num::{PositiveLength, U1, U16, U2, U32, U4, U48, U64, U7, U8};
 use lightmotif::pli::{Pipeline, Score, Stripe};
 use lightmotif::pwm::ScoringMatrix;
 use lightmotif::scores::StripedScores;
@@ -22,6 +22,12 @@ pub enum Cols {
     U4,
     U16,
     U32,
+    /// layouts nobody ships a dedicated kernel for: a non-power-of-two (generic only), 8 (generic only), and
+    /// 48 / 64 columns, which the SSE2 backend accepts as multiples of 16
+    U7,
+    U8,
+    U48,
+    U64,
 }
 
 impl Cols {
@@ -32,6 +38,10 @@ impl Cols {
             Cols::U4 => 4,
             Cols::U16 => 16,
             Cols::U32 => 32,
+            Cols::U7 => 7,
+            Cols::U8 => 8,
+            Cols::U48 => 48,
+            Cols::U64 => 64,
         }
     }
 }
@@ -61,12 +71,12 @@ pub struct Case {
 pub struct ScoreSub;
 
 fn case_strategy(tier: Tier) -> BoxedStrategy<Case> {
-    (abc_strategy(), prop_oneof![1 => Just(Cols::U1), 1 => Just(Cols::U2), 1 => Just(Cols::U4), 3 => Just(Cols::U16), 6 => Just(Cols::U32)])
+    (abc_strategy(), prop_oneof![2 => Just(Cols::U1), 2 => Just(Cols::U2), 2 => Just(Cols::U4), 6 => Just(Cols::U16), 12 => Just(Cols::U32), 1 => Just(Cols::U7), 1 => Just(Cols::U8), 2 => Just(Cols::U48), 2 => Just(Cols::U64)])
         .prop_flat_map(move |(abc, cols)| {
             let k = abc.k();
             // narrow layouts make many rows: keep their sequences short
             let len = match cols {
-                Cols::U1 | Cols::U2 | Cols::U4 => (0usize..=120).boxed(),
+                Cols::U1 | Cols::U2 | Cols::U4 | Cols::U7 | Cols::U8 => (0usize..=120).boxed(),
                 _ => len_strategy(tier),
             };
             let normal = (seq_strategy(k, len), mat_strategy(abc, width_strategy(if abc == Abc::Dna { 70 } else { 40 }), Regimes::ALL)).boxed();
@@ -76,7 +86,7 @@ fn case_strategy(tier: Tier) -> BoxedStrategy<Case> {
                 .prop_flat_map(move |(m, d)| (seq_strategy(k, Just(m - 1 + d).boxed()), mat_strategy(abc, Just(m).boxed(), Regimes::ALL)))
                 .boxed();
             let seq_mat = match cols {
-                Cols::U16 | Cols::U32 => prop_oneof![12 => normal, 1 => long].boxed(),
+                Cols::U16 | Cols::U32 | Cols::U48 | Cols::U64 => prop_oneof![12 => normal, 1 => long].boxed(),
                 _ => normal,
             };
             (
@@ -98,7 +108,7 @@ impl Sub for ScoreSub {
         "score"
     }
     fn rule(&self) -> &'static str {
-        "alphabet x layout x boundary-biased length x sequence mode x matrix regime (library / finite / -inf / small-int) x width 1..70 (and, 1 case in 13, width 100..400 on a sequence with only 0..40 valid positions) x extra wrap x row sub-range x reused buffer x sequence striped by the library or (2 in 7) built through StripedSequence::new from a hand-filled matrix with arbitrary symbols in the unused cells and 0..3 spare rows; every backend implemented for the layout (generic, sse2, avx2, dispatch forced to each arm) and every read-out path compared with a linear-sequence reference; sweep = every length 0..70 (thorough ..1100) x 4 widths x both alphabets x 16/32 columns, plus sequences of more than 65536 striped rows; non-trivial = L >= M and R >= 2 (distinct by full case)"
+        "alphabet x layout (1, 2, 4, 7, 8, 16, 32, 48, 64 columns) x boundary-biased length x sequence mode x matrix regime (library / finite / -inf / small-int) x width 1..70 (and, 1 case in 13, width 100..400 on a sequence with only 0..40 valid positions) x extra wrap x row sub-range x reused buffer x sequence striped by the library or (2 in 7) built through StripedSequence::new from a hand-filled matrix with arbitrary symbols in the unused cells and 0..3 spare rows; every backend implemented for the layout (generic, sse2, avx2, dispatch forced to each arm) and every read-out path compared with a linear-sequence reference; sweep = every length 0..70 (thorough ..1100) x 4 widths x both alphabets x 16/32 columns, plus sequences of more than 65536 striped rows; non-trivial = L >= M and R >= 2 (distinct by full case)"
     }
     fn cases(&self, tier: Tier) -> u64 {
         tier.pick(100_000, 3_000_000)
@@ -168,6 +178,14 @@ impl Sub for ScoreSub {
             (Abc::Protein, Cols::U4) => check_narrow::<Protein, U4>(case),
             (Abc::Protein, Cols::U16) => check_16::<Protein>(case),
             (Abc::Protein, Cols::U32) => check_32::<Protein>(case),
+            (Abc::Dna, Cols::U7) => check_narrow::<Dna, U7>(case),
+            (Abc::Dna, Cols::U8) => check_narrow::<Dna, U8>(case),
+            (Abc::Protein, Cols::U7) => check_narrow::<Protein, U7>(case),
+            (Abc::Protein, Cols::U8) => check_narrow::<Protein, U8>(case),
+            (Abc::Dna, Cols::U48) => check_sse2_wide::<Dna, U48>(case),
+            (Abc::Dna, Cols::U64) => check_sse2_wide::<Dna, U64>(case),
+            (Abc::Protein, Cols::U48) => check_sse2_wide::<Protein, U48>(case),
+            (Abc::Protein, Cols::U64) => check_sse2_wide::<Protein, U64>(case),
         }
     }
 }
@@ -393,6 +411,10 @@ fn classify<C: PositiveLength>(case: &Case, l: usize, m: usize, rows: usize, sub
         Cols::U4 => "C=4",
         Cols::U16 => "C=16",
         Cols::U32 => "C=32",
+        Cols::U7 => "C=7",
+        Cols::U8 => "C=8",
+        Cols::U48 => "C=48",
+        Cols::U64 => "C=64",
     });
     info.class(match case.mat.regime.as_str() {
         "library" => "mat:library",
@@ -418,6 +440,28 @@ fn check_narrow<A: Alphabet, C: PositiveLength>(case: &Case) -> Verdict {
     let outs = vec![run_backend("generic", &Pipeline::<A, _>::generic(), &p, case.prev_rows, case.first_width)];
     let mut info = CaseInfo::new();
     classify::<C>(case, p.idx.len(), p.cells.len(), p.rows, &p.sub, &mut info);
+    match compare(case, &p, &outs, &mut info) {
+        Some(f) => Verdict::Fail(f),
+        None => Verdict::Pass(info),
+    }
+}
+
+/// 48 / 64 columns: the generic and the SSE2 backend (any multiple of 16 columns).
+fn check_sse2_wide<A: Alphabet, C: PositiveLength>(case: &Case) -> Verdict
+where
+    Pipeline<A, lightmotif::pli::platform::Sse2>: Score<f32, A, C>,
+{
+    if case.mat.m() == 0 {
+        return Verdict::Pass(CaseInfo::new());
+    }
+    let p = prepare::<A, C>(case);
+    let outs = vec![
+        run_backend("generic", &Pipeline::<A, _>::generic(), &p, case.prev_rows, case.first_width),
+        run_backend("sse2", &Pipeline::<A, _>::sse2().unwrap(), &p, case.prev_rows, case.first_width),
+    ];
+    let mut info = CaseInfo::new();
+    classify::<C>(case, p.idx.len(), p.cells.len(), p.rows, &p.sub, &mut info);
+    info.class("backend:sse2");
     match compare(case, &p, &outs, &mut info) {
         Some(f) => Verdict::Fail(f),
         None => Verdict::Pass(info),
